@@ -101,6 +101,8 @@ def check(prog, rep):
         raise AnalysisError("add_cell: the (x, y, z) key tuple was not found")
     selfskip = [n for fn in qnodes for n in ast.walk(fn) if isinstance(n, ast.If) and isinstance(n.body[0], ast.Continue)]
     rep.guarded(rule_model_queries, prog, rep, sorted(sizes))
+    from . import shared as _sh
+    rep.guarded(_sh.rule_refill_is_unconditional, prog, rep, "R6", "a function that fills the cell map from the atom list does so on every path (never a conditional refresh)")
     # the query must read the live cell map: no instance state is written by the query (no memoised neighbourhoods)
     writes = []
     for fn in qnodes:
